@@ -46,7 +46,7 @@ BOUNDS = {
     "quick": "CAPA: p in {1,2}, min_segment_length 2, max_segment_length in {2,3,n}, n<=4 (n=5 for p=1, M in {2,3}); "
              "MVCAPA with user penalty callables (alpha, beta_1..beta_p symbolic): p=2, n<=3; all savings and "
              "penalty scales symbolic",
-    "thorough": "CAPA: p=1: m=2 n<=4 (n=5 with M in {2,3}), m=3 n<=5 (n=6 with M=3); p=2 n<=4 (n=5 for m=3, M=3); MVCAPA: p=2, n=2 in six penalty regimes, n=3 in three; named penalty families n<=3 (p=3 runs: see C16)",
+    "thorough": "CAPA: p=1: m=2 n<=4 (n=5 with M=2), m=3 n<=5; p=2 n<=4; MVCAPA: p=2, n=2 in six penalty regimes, n=3 in the dense and sparse regimes; named penalty families n=2 (p=3 runs: see C16)",
 }
 STUBS = ["TableSaving: user-defined saving returning one free real per (start, end, column)",
          "MVCAPA penalties: user callables returning symbolic (alpha, betas)"]
@@ -431,18 +431,19 @@ def jobs(tier, mode="c03"):
         mv = [(2, 2, 2, 2, "general", "sparse"), (2, 2, 2, 2, "sparse", "general"), (2, 2, 2, 2, "mixed", "dense"),
               (3, 2, 2, 3, "dense", "dense")]
     else:
-        # measured: n=5, m=2, M=1000 does not finish in 15 min on 16 cores (the repaired DP keeps more starts alive and
-        # the explicit oracle has 89 anomaly sets per prefix) -- outside the thorough tier, stated in BOUNDS
-        capa = ([(n, 1, 2, M) for n in range(2, 5) for M in (2, 3, 1000)] + [(5, 1, 2, 2), (5, 1, 2, 3)]
+        # sized from measurements (16 cores): every job below has <= 13 000 paths.  Measured and left out: CAPA n=5, m=2
+        # with M in {3, 1000}, n=6 (m=3) and MVCAPA n=3 in the general regimes -- each of them alone exceeds 15 min
+        # (the repaired DP keeps more starts alive; the explicit oracle has 89 / 233 anomaly sets per prefix at n=5 / 6)
+        capa = ([(n, 1, 2, M) for n in range(2, 5) for M in (2, 3, 1000)] + [(5, 1, 2, 2)]
                 + [(n, 2, 2, M) for n in range(2, 5) for M in (2, 1000)]
-                + [(n, 1, 3, M) for n in range(3, 6) for M in (3, 1000)] + [(6, 1, 3, 3), (5, 2, 3, 3)])
+                + [(n, 1, 3, M) for n in range(3, 6) for M in (3, 1000)])
         regs = [("general", "sparse"), ("sparse", "general"), ("mixed", "dense"), ("dense", "dense"), ("sparse", "sparse"), ("general", "general")]
-        mv = [(2, 2, 2, 2, a, b) for a, b in regs] + [(3, 2, 2, 3, a, b) for a, b in (("dense", "dense"), ("sparse", "sparse"), ("general", "sparse"))]
+        mv = [(2, 2, 2, 2, a, b) for a, b in regs] + [(3, 2, 2, 3, a, b) for a, b in (("dense", "dense"), ("sparse", "sparse"))]
     for (n, p, m, M) in capa:
         out.append(Job(Mod, "make_capa", dict(n=n, p=p, m=m, M=M, mode=mode), split=n >= 4))
     for (n, p, m, M, creg, preg) in mv:
         out.append(Job(Mod, "make_mvcapa", dict(n=n, p=p, m=m, M=M, mode=mode, creg=creg, preg=preg), split=True))
-    named = [(2, 2, "combined", "sparse")] if tier == "quick" else [(2, 2, "combined", "sparse"), (2, 2, "dense", "dense"), (2, 2, "intermediate", "combined"), (3, 2, "sparse", "sparse")]
+    named = [(2, 2, "combined", "sparse")] if tier == "quick" else [(2, 2, "combined", "sparse"), (2, 2, "dense", "dense"), (2, 2, "intermediate", "combined")]
     for (n, p, cpen, ppen) in named:
         out.append(Job(Mod, "make_mvcapa_named", dict(n=n, p=p, m=2, M=1000, cpen=cpen, ppen=ppen, mode=mode), split=True))
     return out
